@@ -161,3 +161,26 @@ func init() {
 	checks["C12"] = checkC12
 	replayers["C12"] = replaySemCase(&SemOpts{})
 }
+
+func checkC15(c *Ctx) {
+	o := &SemOpts{Strict: true, SpliceMeta: true}
+	cfg := "FamPrint_quick.cfg"
+	if c.Tier == "thorough" {
+		cfg = "FamPrint_thorough.cfg"
+	}
+	if c.runSemFamily("FamPrint", cfg, o, 60*time.Minute) != nil {
+		every := 1
+		if c.Tier == "thorough" {
+			every = 20
+		}
+		c.replaySemCLI(c.lastFile, o, every, 10*time.Second)
+	}
+	c.cov("exhaustive", false)
+	c.cov("rule", "FamPrint: each value of the pool (boundary and random doubles, powers of ten around the exponent switch, 15-17 digit values, +-Inf, NaN, int64 results of bitwise operators, strings over Latin, Bangla letters, combining marks, every Bangla code point with a canonical decomposition and the sequences composing to them, nil, booleans) printed alone, spliced by + on both sides, inside arrays/objects (nested), after index/property stores, through a parameter and a built-in; numbers are checked by relation (denotes exactly the value, shortest digits, integers below 10^6 plain), strings exactly (NFC), each print ends in exactly one newline; in-process and through the executable")
+	semAssumptions(c)
+}
+
+func init() {
+	checks["C15"] = checkC15
+	replayers["C15"] = replaySemCase(&SemOpts{Strict: true, SpliceMeta: true})
+}
